@@ -17,7 +17,7 @@ func init() {
 		var batch c10Batch
 		rig.Must(json.Unmarshal(b, &batch))
 		rn := &c10Runner{fixturesDir: batch.FixturesDir, scratch: batch.Scratch, timeoutMs: batch.TimeoutMs, allocLimit: batch.AllocLimit,
-			results: map[int]c10Result{}, deaths: map[int]string{}, hangs: map[int]bool{}, pristine: map[string]c10Case{}}
+			results: map[int]c10Result{}, deaths: map[int]string{}, hangs: map[int]bool{}, pristine: map[string]c10Case{}, flakyDeath: map[int]string{}}
 		rn.runBatch(batch.Cases, "dbg")
 		for id, r := range rn.results {
 			fmt.Printf("result %d: %s viols=%d err=%q\n", id, r.Class, len(r.Viols), r.Err)
